@@ -115,6 +115,12 @@ CHECKS = {
         text='Every document of the grid is written to a private temporary file and read by Document.paths, Document.paths_from_group (three groups), svg2paths (no transforms by design) and SaxDocument.flatten_all_paths; each returned path is matched to its element by id and compared as a point set (both directions) with the reference geometry under the reference matrix; path.transform is compared with the reference matrix.',
         note='Trusted: mc/refsvg.py as the reading of SVG 1.1 (7.6, 9.x). Geometry tolerance 5e-4*size (polyline sampling); order of the returned list is not compared.',
         design='4/C17'),
+    'C18': dict(
+        level='model_checking',
+        technique='explicit-state BFS over Document writer histories (add_path with Path/segment/d-string into root or nested groups, add_group, save, save+reload), de-duplicated on the reference-model state and observed through every reader in every state; full product for wsvg (path lists x attributes x svg attributes x filename kinds)',
+        text='A state is the reference model (ordered list of (path, attributes, group path) plus saved/reloaded status); each transition calls the real writer operation; in every state the Document\'s own paths() must show exactly the modelled paths, and after every save all three readers (svg2paths, Document, SaxDocument) must return the same paths (absolute-form equality of C01) with the supplied attributes. wsvg is checked on the full product of its alphabet including fresh sub-directories and file names with spaces.',
+        note='Trusted: the list-of-paths reference model; private temporary directory per run. Depth 4 (quick) / 5 (thorough) over 9 operations.',
+        design='4/C18'),
 }
 
 NOT_YET = {}
